@@ -400,7 +400,8 @@ seeded('C14', 'Erlang assigns k after the base constructor', 'R14.2',
 seeded('C14', 'Normal keeps the saved gaussian across re-pointing', 'R14.3',
        [('distributions', "        super()._set_stream(stream)\n        self._have_saved_gaussian = False  # helper variable", "        super()._set_stream(stream)")], key='_have_saved_gaussian')
 seeded('C14', 'class-level cache shared by all Poisson instances', 'R14.4',
-       [('distributions', "class DistPoisson(DistDiscrete):\n", "class DistPoisson(DistDiscrete):\n    _cache = {}\n")], key='_cache')
+       [('distributions', "class DistPoisson(DistDiscrete):\n", "class DistPoisson(DistDiscrete):\n    _cache = {}\n"),
+        ('distributions', "        self._expl = math.exp(-self._rate)\n", "        self._cache['expl'] = math.exp(-self._rate)\n        self._expl = self._cache['expl']\n")], key='_cache')
 seeded('C14', 'LogNormal returns the underlying normal draw', 'R14.5',
        [('distributions', "        return math.exp(super().draw())", "        return super().draw()")], key='DistLogNormal')
 seeded('C14', 'NormalTrunc returns the unclamped value on the high side', 'R14.5',
